@@ -1855,8 +1855,10 @@ class ArmV6:
     def execute_instruction(self, opcode):
         self.registers.changed_registers = [False] * 16
         self.executed_opcode = opcode
-        if self.in_it_block():
-            opcode.execute(self)
+        in_it_block = self.in_it_block()
+        self.registers.itstate_restored = False
+        opcode.execute(self)
+        # an exception return loads ITSTATE from the SPSR: that value belongs to the code returned to
+        if in_it_block and not self.registers.itstate_restored:
             self.registers.it_advance()
-        else:
-            opcode.execute(self)
+        self.registers.itstate_restored = False
